@@ -110,6 +110,13 @@ def parse_template(path: str):
         i += 1
     if not unit["package"] or not unit["modfile"]:
         raise ValueError(f"{path}: package/modfile missing")
+    # fully qualified module path of the injected module (for `--exact` harness selection)
+    rel = unit["modfile"].split("/src/", 1)[1][:-3].split("/")
+    rel = [x for x in rel if x not in ("lib", "mod", "main")]
+    m = re.search(r"mod\s+(__verif_\w+)", "\n".join(unit["module"]))
+    unit["modpath"] = "::".join(rel + ([m.group(1)] if m else []))
+    for h in unit["harnesses"]:
+        h["fq"] = (unit["modpath"] + "::" if unit["modpath"] else "") + h["name"]
     return unit
 
 
@@ -174,7 +181,9 @@ def run_group(ws: str, package: str, flags: list, harnesses: list, jobs: int, lo
     for z in extra_z:
         cmd += ["-Z", z]
     for h in harnesses:
-        cmd += ["--harness", h["name"]]
+        cmd += ["--harness", h.get("fq") or h["name"]]
+    if all(h.get("fq") for h in harnesses):
+        cmd += ["--exact"]
     cmd += ["-j", str(jobs), "--output-format", "terse", "--harness-timeout", str(tmax), "--export-json", out_json]
     env = dict(os.environ, CARGO_NET_OFFLINE="true")
     t0 = time.time()
@@ -246,14 +255,14 @@ def classify(hres: dict, h: dict):
     return "violation", "; ".join(f"{(f.get('desc') or '')[:160]} @ {((f.get('loc') or {}).get('file') or '').split('/')[-1]}:{(f.get('loc') or {}).get('line')}" for f in real[:4])
 
 
-def playback(ws: str, package: str, flags: list, hname: str, log_dir: str, modfile: str, timeout: int = 1800, extra_z=()):
+def playback(ws: str, package: str, flags: list, hname: str, log_dir: str, modfile: str, timeout: int = 1800, extra_z=(), fq: str = None):
     """re-run one failing harness with concrete playback (print), append the generated unit test to the
     injected module, then execute it natively (cargo kani playback): the real code, compiled by rustc,
     on Kani's concrete values."""
     env = dict(os.environ, CARGO_NET_OFFLINE="true")
     log1 = os.path.join(log_dir, f"playback-gen-{hname}.log")
     cmd = ["cargo", "kani", "-p", package] + flags + ["-Z", "function-contracts", "-Z", "stubbing", "-Z", "concrete-playback", "--no-assert-contracts",
-                                                        "--concrete-playback=print", "--harness", hname]
+                                                        "--concrete-playback=print", "--harness", fq or hname] + (["--exact"] if fq else [])
     for z in extra_z:
         cmd += ["-Z", z]
     try:
